@@ -57,6 +57,9 @@ Section SelectP.
     destruct (sst g); cbn; [constructor|now inversion E].
   Qed.
 
+  Lemma with_stream_inv g str : GI g -> SP str -> GI (with_stream g str).
+  Proof. intros (A & B & Cc & D & _) Hs. unfold GInv, with_stream; cbn. auto. Qed.
+
   (* ---- the main facts about one successful fit ----------------------------------------- *)
   Definition prev_ok (prev : option (gst stream)) : Prop :=
     match prev with Some g => GI g | None => True end.
@@ -71,8 +74,9 @@ Section SelectP.
     destruct (c_warm c).
     - destruct prev as [g0|]; [|discriminate].
       destruct (Nat.eqb (length (sel g0)) 0); [discriminate|].
-      destruct (s_run cand ycand (c_thr c) (k - length (sel g0)) g0) as [g1 st1] eqn:Er.
+      destruct (s_run cand ycand (c_thr c) (k - length (sel g0)) (with_stream g0 str)) as [g1 st1] eqn:Er.
       destruct (s_pop (g1, st1)) as [g2 st2] eqn:Ep. intros H; injection H as <- <-.
+      assert (G0 : GI (with_stream g0 str)) by (apply with_stream_inv; assumption).
       assert (G1 : GI g1) by (eapply (run_inv stream _ _ cand ycand SP SP_len SP_upd); eauto).
       eapply pop_inv; eauto.
     - match goal with |- context [s_run _ _ _ _ ?g0] => set (gi := g0) end.
@@ -97,9 +101,11 @@ Section SelectP.
     destruct (c_warm c).
     - destruct prev as [g0|]; [|discriminate].
       destruct (Nat.eqb (length (sel g0)) 0); [discriminate|].
-      destruct (s_run cand ycand (c_thr c) (k - length (sel g0)) g0) as [g1 st1] eqn:Er.
+      destruct (s_run cand ycand (c_thr c) (k - length (sel g0)) (with_stream g0 str)) as [g1 st1] eqn:Er.
       destruct (s_pop (g1, st1)) as [g2 st2] eqn:Ep. intros H Hle; injection H as <- <-.
-      destruct (run_extends stream _ _ cand ycand SP SP_len SP_upd _ _ _ _ _ Hp Er) as (new & Hn & Hl & Hst).
+      assert (G0 : GI (with_stream g0 str)) by (apply with_stream_inv; assumption).
+      destruct (run_extends stream _ _ cand ycand SP SP_len SP_upd _ _ _ _ _ G0 Er) as (new & Hn & Hl & Hst).
+      cbn [with_stream sel] in Hn.
       assert (G1 : GI g1) by (eapply (run_inv stream _ _ cand ycand SP SP_len SP_upd); eauto).
       destruct (pop_inv _ _ _ _ G1 Ep) as (_ & Hsel & ->). rewrite Hsel, Hn, app_length.
       split; [lia|]. intros E. rewrite (Hst E). lia.
